@@ -9,16 +9,16 @@ set_option mvcgen.warning false
 
 namespace ErdosVerif.Model.Sim
 
-theorem logUtilization_spec (n : Int) (ex : List SEvent) (time : Int) : KeepsR n ex (logUtilization time) := by
-  have h_row := row_spec n ex
-  mvcgen [logUtilization, h_row]
+theorem logUtilization_rspec (n : Int) (ex : List SEvent) (time : Int) : KeepsR n ex (logUtilization time) := by
+  have h_row := row_rspec n ex
+  rmvcgen [logUtilization, h_row]
   case inv1 => exact loopR n ex
   case inv2 => exact loopR n ex
   all_goals frame_close
 
-theorem schedulable_spec (n : Int) (ex : List SEvent) (time : Int) : KeepsR n ex (schedulable time) := by
-  have h_tape : ∀ l : TapeM (List Nat), KeepsR n ex (liftTape l) := fun l => liftTape_spec n ex l
-  mvcgen [schedulable, getGraph, placedTasks, h_tape]
+theorem schedulable_rspec (n : Int) (ex : List SEvent) (time : Int) : KeepsR n ex (schedulable time) := by
+  have h_tape : ∀ l : TapeM (List Nat), KeepsR n ex (liftTape l) := fun l => liftTape_rspec n ex l
+  rmvcgen [schedulable, getGraph, placedTasks, h_tape]
   case inv1 => exact loopR n ex
   all_goals frame_close
 
@@ -59,9 +59,9 @@ theorem AP.push {ex : List SEvent} (s s' : SimS) (h : AP RunOK ex s) (g : GraphS
     · subst h1; exact hj'
   · intro hl'; rw [hlr, hrel] at hl'; cases hl'
 
-theorem notifyGraphCompletion_spec (n : Int) (ex : List SEvent) (gi : Nat) (finish : Int) :
+theorem notifyGraphCompletion_rspec (n : Int) (ex : List SEvent) (gi : Nat) (finish : Int) :
     KeepsR n ex (notifyGraphCompletion gi finish) := by
-  mvcgen [notifyGraphCompletion, liftTape, liftE]
+  rmvcgen [notifyGraphCompletion, liftTape, liftE]
   all_goals first
     | frame_close
     | (have h := ‹AP RunOK _ _ ∧ _›
@@ -150,16 +150,16 @@ macro "ev_close" : tactic => `(tactic| first
   | (rs_hyps h => rs_hyps h2 => exact ⟨h.1, NoFin.snoc h2.2 (by rw [h.2.1]; decide)⟩)
   | (ap_step; exact EF_erase _ _ _))
 
-theorem placementSkip_spec (n : Int) (ex : List SEvent) (time : Int) (p : PlacementS) (drop : Bool) :
+theorem placementSkip_rspec (n : Int) (ex : List SEvent) (time : Int) (p : PlacementS) (drop : Bool) :
     ⦃RA n ex⦄ placementSkip time p drop
     ⦃post⟨fun r s => ⌜(AP RunOK ex s ∧ s.now = n) ∧ NoFin r⌝, fun _ s => ⌜WInv s⌝⟩⦄ := by
-  have h_row := row_spec n ex
-  have h_logE := logE_spec n ex
-  have h_mk := mkEvent_spec n ex
-  have h_ngc := notifyGraphCompletion_spec n ex
-  have h_rm := removeEvent_spec n ex
-  have h_tc := taskCall_spec n ex
-  mvcgen [placementSkip, getGraph, setGraph, getTask, h_row, h_logE, h_mk, h_ngc, h_rm, h_tc]
+  have h_row := row_rspec n ex
+  have h_logE := logE_rspec n ex
+  have h_mk := mkEvent_rspec n ex
+  have h_ngc := notifyGraphCompletion_rspec n ex
+  have h_rm := removeEvent_rspec n ex
+  have h_tc := taskCall_rspec n ex
+  rmvcgen [placementSkip, getGraph, setGraph, getTask, h_row, h_logE, h_mk, h_ngc, h_rm, h_tc]
   case inv1 => exact loopEv n ex
   case inv2 => exact loopEv n ex
   case inv3 => exact loopEv n ex
@@ -208,7 +208,7 @@ macro "quiet_close" : tactic => `(tactic| first
   | (have h := ‹AP RunOK _ _ ∧ _›
      exact AP.quietLogW _ _ _ _ _ _ h ‹_› ‹_› rfl rfl rfl rfl (log_same_ext _) rfl rfl rfl rfl rfl rfl rfl))
 
-/-- After `mkEvent` (spec `mkEvent_spec'`) the id of the fresh event is kept in `future` / `nextSched`. -/
+/-- After `mkEvent` (spec `mkEvent_rspec'`) the id of the fresh event is kept in `future` / `nextSched`. -/
 macro "efadd_close" : tactic => `(tactic|
   (have h := ‹(AP RunOK _ _ ∧ _) ∧ _ ∧ _ ∧ _ ∧ _ ∧ _›
    exact ⟨AP.efAdd _ _ h.1.1 _ h.2.2.2.2.1 h.2.2.2.2.2 rfl rfl rfl rfl (fun _ h' _ => h')
@@ -219,14 +219,14 @@ theorem noFin_single (e : SEvent) (a : Nat) (h : e.ev.etype = a) (ha : a ≠ ET.
   simp only [List.mem_singleton] at he'
   subst he'; rw [h]; exact ha
 
-theorem placementEvents_spec (n : Int) (ex : List SEvent) (time : Int) (p : PlacementS) :
+theorem placementEvents_rspec (n : Int) (ex : List SEvent) (time : Int) (p : PlacementS) :
     ⦃RA n ex⦄ placementEvents time p
     ⦃post⟨fun r s => ⌜(AP RunOK ex s ∧ s.now = n) ∧ NoFin r⌝, fun _ s => ⌜WInv s⌝⟩⦄ := by
-  have h_mk := mkEvent_spec' n ex
-  have h_skip := placementSkip_spec n ex
-  have h_edit := editEvent_spec n ex
-  have h_heap := reheapify_spec n ex
-  mvcgen [placementEvents, getGraph, setGraph, getTask, taskCall, raiseTask, logE, h_mk, h_skip, h_edit, h_heap]
+  have h_mk := mkEvent_rspec' n ex
+  have h_skip := placementSkip_rspec n ex
+  have h_edit := editEvent_rspec n ex
+  have h_heap := reheapify_rspec n ex
+  rmvcgen [placementEvents, getGraph, setGraph, getTask, taskCall, raiseTask, logE, h_mk, h_skip, h_edit, h_heap]
   all_goals first
     | ev_close
     | quiet_close
